@@ -45,7 +45,10 @@ def run(ctx):
                   "%s runs on every call of _build_self (not only the first): rebuilding would change the definition" % c.callee_q.rsplit("::", 1)[1])
     setb = [c for c in bs.calls_to(r"AppFlags::set$") if "Built" in agg_variants(bs, c.args[1]) and "BinNameBuilt" not in agg_variants(bs, c.args[1])]
     isb = [c for c in bs.calls_to(r"AppFlags::is_set$") if "Built" in agg_variants(bs, c.args[1])]
-    res.floor("R11.1", "settings.set(Built)", len(setb), 1)
+    if isb and not setb:
+        res.violation("R11.1", "region-ends-with-set-built", bs.where(), "_build_self tests Built but never sets it: the definition is rebuilt (args re-derived, globals re-propagated) on every parse")
+    else:
+        res.floor("R11.1", "settings.set(Built)", len(setb), 1)
     if setb and isb:
         br = bs.call_branch(isb[0])
         okp = False
